@@ -84,24 +84,28 @@ fn roundtrip<T: Felt252Serde>(x: &T, felts: usize) -> T {
     }
 }
 
+//@ props=C18
 #[kani::proof]
 #[kani::unwind(6)]
 fn rt_usize() {
     let x: usize = kani::any();
     assert!(roundtrip(&x, 1) == x, "C18 usize: deserialize(serialize(x)) == x");
 }
+//@ props=C18
 #[kani::proof]
 #[kani::unwind(6)]
 fn rt_u64() {
     let x: u64 = kani::any();
     assert!(roundtrip(&x, 1) == x, "C18 u64: deserialize(serialize(x)) == x");
 }
+//@ props=C18
 #[kani::proof]
 #[kani::unwind(6)]
 fn rt_statement_idx() {
     let x = StatementIdx(kani::any());
     assert!(roundtrip(&x, 1).0 == x.0, "C18 StatementIdx: deserialize(serialize(x)) == x");
 }
+//@ props=C18
 #[kani::proof]
 #[kani::unwind(6)]
 fn rt_concrete_type_id() {
@@ -109,6 +113,7 @@ fn rt_concrete_type_id() {
     let y = roundtrip(&x, 1);
     assert!(y.id == x.id && y.debug_name.is_none(), "C18 ConcreteTypeId: same id, debug_name dropped");
 }
+//@ props=C18
 #[kani::proof]
 #[kani::unwind(6)]
 fn rt_concrete_libfunc_id() {
@@ -116,6 +121,7 @@ fn rt_concrete_libfunc_id() {
     let y = roundtrip(&x, 1);
     assert!(y.id == x.id && y.debug_name.is_none(), "C18 ConcreteLibfuncId: same id, debug_name dropped");
 }
+//@ props=C18
 #[kani::proof]
 #[kani::unwind(6)]
 fn rt_var_id() {
@@ -124,6 +130,7 @@ fn rt_var_id() {
     let y = roundtrip(&x, 1);
     assert!(y.id == x.id && y.debug_name.is_none(), "C18 VarId: same id, debug_name dropped");
 }
+//@ props=C18
 #[kani::proof]
 #[kani::unwind(6)]
 fn rt_function_id() {
@@ -162,6 +169,7 @@ fn rt_user_type_id_wide() {
         assert!(same_felt(&y.id, &multi_digit(i)) && y.debug_name.is_none(), "C18 UserTypeId (multi-digit felt): same id, debug_name dropped");
     }
 }
+//@ props=C18
 #[kani::proof]
 #[kani::unwind(6)]
 fn rt_branch_target() {
@@ -177,19 +185,21 @@ fn rt_branch_target() {
 }
 /// P1 documented: the excluded value does collide with the sentinel (so the exclusion is needed and
 /// exact: it is the only value of the type that does not round-trip).
+//@ props=C18
 #[kani::proof]
 #[kani::unwind(6)]
 fn rt_branch_target_sentinel_collision() {
     let t = BranchTarget::Statement(StatementIdx(usize::MAX));
     assert!(roundtrip(&t, 1) == BranchTarget::Fallthrough, "C18 BranchTarget: Statement(usize::MAX) decodes as the Fallthrough sentinel (declared exception P1)");
 }
+//@ props=C18
 #[kani::proof]
 #[kani::unwind(6)]
 fn rt_version_id() {
     let x = VersionId { major: kani::any(), minor: kani::any(), patch: kani::any() };
     assert!(roundtrip(&x, 3) == x, "C18 VersionId: deserialize(serialize(x)) == x");
 }
-//@ props=C18 bound="user type id < 2^64 symbolic; wider ids in rt_generic_arg_user_type_wide"
+//@ props=C18 bound="user type id < 2^64 symbolic; wider ids: native unit n_felt_serde_bigint (three round trips of multi-digit ids exhaust the SAT solver memory - measured)"
 #[kani::proof]
 #[kani::unwind(6)]
 fn rt_generic_arg_user_type() {
@@ -200,18 +210,7 @@ fn rt_generic_arg_user_type() {
         _ => assert!(false, "C18 GenericArg::UserType: variant preserved"),
     }
 }
-//@ props=C18 bound="user type ids 2^64, 2^128, P-1 (2, 3 and 4 digits)"
-#[kani::proof]
-#[kani::unwind(6)]
-fn rt_generic_arg_user_type_wide() {
-    for i in 0..N_MULTI {
-        let x = GenericArg::UserType(UserTypeId { id: multi_digit(i), debug_name: None });
-        match roundtrip(&x, 2) {
-            GenericArg::UserType(y) => assert!(same_felt(&y.id, &multi_digit(i)) && y.debug_name.is_none(), "C18 GenericArg::UserType (multi-digit felt): same id"),
-            _ => assert!(false, "C18 GenericArg::UserType (multi-digit felt): variant preserved"),
-        }
-    }
-}
+//@ props=C18
 #[kani::proof]
 #[kani::unwind(6)]
 fn rt_generic_arg_type() {
@@ -221,6 +220,7 @@ fn rt_generic_arg_type() {
         _ => assert!(false, "C18 GenericArg::Type: variant preserved"),
     }
 }
+//@ props=C18
 #[kani::proof]
 #[kani::unwind(6)]
 fn rt_generic_arg_user_func() {
@@ -230,6 +230,7 @@ fn rt_generic_arg_user_func() {
         _ => assert!(false, "C18 GenericArg::UserFunc: variant preserved"),
     }
 }
+//@ props=C18
 #[kani::proof]
 #[kani::unwind(6)]
 fn rt_generic_arg_libfunc() {
@@ -287,41 +288,49 @@ fn total_one_felt_wide<T: Felt252Serde>(w: &[BigUint; N_WIDE]) {
 }
 fn wides() -> [BigUint; N_WIDE] { [wide(0), wide(1), wide(2), wide(3)] }
 
+//@ props=C14
 #[kani::proof]
 #[kani::unwind(3)]
 fn total_usize() {
     total_one_felt::<usize>(fits_usize, |x, v| *x as u128 == v);
 }
+//@ props=C14
 #[kani::proof]
 #[kani::unwind(3)]
 fn total_u64() {
     total_one_felt::<u64>(fits_u64, |x, v| *x as u128 == v);
 }
+//@ props=C14
 #[kani::proof]
 #[kani::unwind(3)]
 fn total_statement_idx() {
     total_one_felt::<StatementIdx>(fits_usize, |x, v| x.0 as u128 == v);
 }
+//@ props=C14
 #[kani::proof]
 #[kani::unwind(3)]
 fn total_concrete_type_id() {
     total_one_felt::<ConcreteTypeId>(fits_u64, |x, v| x.id as u128 == v && x.debug_name.is_none());
 }
+//@ props=C14
 #[kani::proof]
 #[kani::unwind(3)]
 fn total_concrete_libfunc_id() {
     total_one_felt::<ConcreteLibfuncId>(fits_u64, |x, v| x.id as u128 == v && x.debug_name.is_none());
 }
+//@ props=C14
 #[kani::proof]
 #[kani::unwind(3)]
 fn total_var_id() {
     total_one_felt::<VarId>(fits_u64, |x, v| x.id as u128 == v && x.debug_name.is_none());
 }
+//@ props=C14
 #[kani::proof]
 #[kani::unwind(3)]
 fn total_function_id() {
     total_one_felt::<FunctionId>(fits_u64, |x, v| x.id as u128 == v && x.debug_name.is_none());
 }
+//@ props=C14
 #[kani::proof]
 #[kani::unwind(3)]
 fn total_branch_target() {
@@ -352,6 +361,7 @@ fn total_one_felt_wide_ids() {
     total_one_felt_wide::<FunctionId>(&w);
 }
 /// UserTypeId takes any felt whatsoever: Ok iff a felt is present; the id is that felt.
+//@ props=C14
 #[kani::proof]
 #[kani::unwind(3)]
 fn total_user_type_id() {
@@ -366,6 +376,7 @@ fn total_user_type_id() {
         Err(_) => assert!(n == 0 && is_invalid_input(&y), "C14 UserTypeId: Err(InvalidInputForDeserialization) exactly when exhausted"),
     }
 }
+//@ props=C14
 #[kani::proof]
 #[kani::unwind(6)]
 fn total_user_type_id_wide() {
@@ -382,6 +393,7 @@ fn total_user_type_id_wide() {
     }
 }
 /// VersionId = three usize felts; decoding stops at the first felt that is missing or does not fit.
+//@ props=C14
 #[kani::proof]
 #[kani::unwind(3)]
 fn total_version_id() {
@@ -400,6 +412,7 @@ fn total_version_id() {
         Err(_) => assert!(!want_ok && is_invalid_input(&y), "C14 VersionId: Err(InvalidInputForDeserialization) exactly when a felt is missing or does not fit"),
     }
 }
+//@ props=C14
 #[kani::proof]
 #[kani::unwind(6)]
 fn total_version_id_wide() {
